@@ -353,6 +353,14 @@ func (r *rewriter) node(n ast.Node) ast.Node {
 	}
 	r.children(n)
 	switch x := n.(type) {
+	case *ast.ExprStmt:
+		// x.Lock() / x.RLock() / x.Wait(): remember the source position for traces
+		if c, ok := x.X.(*ast.CallExpr); ok && len(c.Args) == 0 {
+			if sel, ok := c.Fun.(*ast.SelectorExpr); ok && (sel.Sel.Name == "Lock" || sel.Sel.Name == "RLock" || sel.Sel.Name == "Wait") {
+				r.stats["locksite"]++
+				return &ast.BlockStmt{List: []ast.Stmt{&ast.ExprStmt{X: r.call("At", r.site(x))}, x}}
+			}
+		}
 	case *ast.SendStmt:
 		r.stats["send"]++
 		return &ast.ExprStmt{X: r.call("Send", r.site(x), x.Chan, x.Value)}
